@@ -236,7 +236,10 @@ static void run_case(Ctx& c, uint64_t idx) {
     static const int COUNTS[] = {15, 16, 17, 31, 32, 33, 63, 64, 65, 99, 100, 101, 127, 128, 129, 255, 256, 257};
     QItems L; int n = r.chance(1, 40) ? (r.coin() ? r.range(9, 70) : COUNTS[r.below(18)]) : r.range(0, 8);
     for (int i = 0; i < n; i++) { QItem it; it.key = r.chance(1, 6) ? Str() : gen_string(r, 10); it.hasValue = r.chance(2, 3); if (it.hasValue) it.value = r.chance(1, 6) ? Str() : gen_string(r, 10);
-        if (n <= 8 && r.chance(1, 40)) { size_t len = special_length(r) % 1100; Str x = gen_string(r, len); while (x.size() < len) x += gen_string(r, len - x.size()).empty() ? Str("a") : gen_string(r, len - x.size()); x.resize(len); (r.coin() ? it.key : it.value) = x; if (!it.hasValue) it.value.clear(); }
+        if (n <= 8 && r.chance(1, 40)) { size_t len = special_length(r) % 1100; Str x = gen_string(r, len); while (x.size() < len) x += gen_string(r, len - x.size()).empty() ? Str("a") : gen_string(r, len - x.size()); x.resize(len);
+            // half of them a token as real queries carry them (digest, session id, base64url): nothing in it needs escaping
+            if (r.coin()) { static const char tk[] = "0123456789abcdefABCDEFghijklmnopqrstuvwxyzGHIJKLMNOPQRSTUVWXYZ-._~"; int style = (int)r.below(3); for (auto& ch : x) ch = tk[style == 0 ? r.below(16) : r.below(sizeof tk - 1)]; }
+            (r.coin() ? it.key : it.value) = x; if (!it.hasValue) it.value.clear(); }
         L.push_back(it); }
     int plus = (int)r.below(2), nb = (int)r.below(2);
     // UriBool is an int: a caller may hand over any non-zero value for "yes" (flags & 4, -1, ...). Every part of the library has to
